@@ -78,6 +78,7 @@ func (fr *frame) call0(cc *ssa.CallCommon, st *State, site ssa.Value, pos token.
 		return fr.builtin(b, cc, args, st, site, pos)
 	}
 	name := calleeName(cc)
+	c.lastCallName = name
 	fr.atCall(name, st, pos, cc, args, site)
 	fr.noteCall(name, st)
 	if cc.IsInvoke() {
@@ -107,7 +108,13 @@ func (fr *frame) call0(cc *ssa.CallCommon, st *State, site ssa.Value, pos token.
 		} else {
 			fr.safety(st, "nil-deref", "call of nil func "+operandName(cc.Value), Not(Eq(fv, Nil)), pos)
 			c.Unverified["dynamic call "+operandName(cc.Value)] = true
-			c.havocAll(st)
+			if len(funcTargets(cc.Value, 0)) > 0 {
+				// one of a few closures evident in this function: the ghost call
+				// counters of functions none of them can reach survive
+				c.havocAllCallees(st, []*ssa.CallCommon{cc})
+			} else {
+				c.havocAll(st)
+			}
 			return fr.freshResults(st, sig, "dyn")
 		}
 	} else if mc, ok := cc.Value.(*ssa.MakeClosure); ok {
